@@ -26,7 +26,7 @@ def enc(s):
 
 THEOREMS = ["C14_quote_lex_roundtrip", "C14_strlit_roundtrip", "C14_format_table_roundtrip", "C14_strip_lex",
             "C14_decider_sound", "C14_visitor_sound", "C14_wf_table", "C14_main", "C14_main_cases", "C14_emits",
-            "C14_every_piece_reads_back", "C14_schema_qualifies_every_table", "C14_inner_sql_sound", "C14_corr_transfers",
+            "C14_every_piece_reads_back", "C14_schema_qualifies_every_table", "C14_inner_sql_sound", "C14_plan_carries_names", "C14_op_main", "C14_corr_transfers",
             "C14_refuted_percent", "C14_refuted_tab", "C14_refuted_trailing_newline",
             "C14_old_oracle_comment_rejected", "C14_old_mssql_literal_rejected"]
 TRUSTED = [
@@ -49,6 +49,9 @@ ASSUME = [
     "and each dotted schema part is non-empty",
     "theorem class env_ok: no name contains '%' on postgresql/mysql, a tab, or ends in a newline (the three classes are "
     "refuted by C14_refuted_* and reported as findings); outside the class the exact comparison and the decider still run",
+    "operation level: server defaults are plain strings (no Identity/Computed), types without DateTime affinity (MySQL's "
+    "functional-default CHANGE branch off) and without type-bound constraints, columns added without constraints/comments; "
+    "create_table_comment/drop_table_comment/create_column_comment use SQLAlchemy's own constructs and are not modelled",
     "constructs compiled entirely by SQLAlchemy (CreateTable, CreateIndex, AddConstraint, DropConstraint incl. alembic's "
     "MySQL DROP CHECK wrapper, comments via SetTableComment) and the PostgreSQL alter-identity SET loop are not modelled",
 ]
@@ -61,7 +64,15 @@ RULE = ("every (dialect, construct incl. every combination of its boolean option
         "one position at a time, empty names (IndexError), pairs without a visitor (must raise), seeded random names over a "
         "hostile alphabet in every position; identifier_preparer.quote on the same classes, random strings and reserved "
         "words; the preparer parameters of each dialect. non-trivial = a statement was emitted / quote() changed the "
-        "string; distinct by encoded input. Names of the three known deviation classes are generated in the main stream "
+        "string; distinct by encoded input. OPERATION-LEVEL stream (kind 'op'): the real Operations API in as_sql mode with a "
+        "harness-side spy on impl._exec - op.alter_column in 29 argument shapes (default-only set/drop with/without "
+        "existing default, type-only, nullable-only, rename, comment set/drop, autoincrement, postgresql_using, "
+        "combinations, shapes that must raise CommandError) plus seeded random requests over the 12-field lattice, "
+        "op.drop_column with every mssql_drop_default/check/foreign_key combination, op.add_column, op.rename_table, "
+        "x dialect x schema {None, plain, needs-quoting, dotted, + extra forms} x identifier-class pairs; compared exactly: "
+        "the sequence of constructs handed to _exec, the table/column/schema/new-name attributes each carries, and each "
+        "emitted text; decided: every emitted statement reads back with the names and schema of the OPERATION. "
+        "Names of the three known deviation classes are generated in the main stream "
         "only once their finding ids are registered in known_findings.json (always in the search stream).")
 EXHAUSTIVE = {"quick": False, "thorough": False}
 CASE_TIMEOUT = 60
@@ -72,7 +83,7 @@ TECHNIQUE = ("Coq proofs by induction over arbitrary strings and piece lists (le
 LEVEL_TEXT = ("Machine-checked: for every dialect, every alembic @compiles visitor (transcribed as a list of pieces and "
               "proved well-formed by computation), every schema and ALL identifier strings of the class (non-empty, no '%' "
               "on pg/mysql, no tab, no trailing newline), the emitted statement - as compiled and as written by _exec in "
-              "as_sql mode - tokenises with the dialect's quoting rules into exactly the expected tokens: each name as the "
+              "as_sql mode - tokenises with the dialect's quoting rules into exactly the expected tokens (also proved one level up: the impl-level dispatch of alter_column/add_column/drop_column/rename_table gives every construct the operation's table, column, schema and new names, so every statement an operation emits reads back with the operation's names): each name as the "
               "identifier token of that very name or inside the intended, correctly escaped string literal, and the schema "
               "chain before every reference to the table. Quote/literal round trips hold for all strings and all quoting "
               "parameters. The three excluded name classes are refuted with witnesses. The model's text is compared "
@@ -246,6 +257,9 @@ def errname(e):
         return "ECompile"
     if isinstance(e, AssertionError):
         return "EAssert"
+    from alembic.util import CommandError
+    if isinstance(e, CommandError):
+        return "ECommand"
     return "EOther"
 
 
@@ -324,8 +338,190 @@ def run_params(h):
                 shape="params-" + h["dialect"])
 
 
+# ----------------------------------------------------------------------------- operation level
+
+TRI = {None: "TNone", True: "TTrue", False: "TFalse"}
+DREQ = {"keep": "DKeep", "drop": "DDrop", "set": "DSet"}
+REQ_DEFAULT = dict(nullable=None, default="keep", rename=False, type=False, comment="keep", autoinc=None, ex_type=False,
+                   ex_nullable=None, ex_default="keep", ex_comment=False, ex_autoinc=False, using=False)
+
+
+def describe(el, dialect_name):
+    """kind, names and opaque texts of a construct handed to impl._exec (read off the real object)"""
+    import sqlalchemy as sa
+    from sqlalchemy import types as sqltypes
+    from alembic.ddl import base, mssql, mysql, postgresql
+    c, _, ddlc = _ctx(dialect_name)
+    dialect = c.dialect
+    typ = lambda x: dialect.type_compiler.process(x) if x is not None else ""
+    dflt = lambda x: ddlc.get_column_default_string(sa.Column("x", sa.Integer, server_default=x))
+    lit = lambda x: ddlc.sql_compiler.render_literal_value(x, sqltypes.String())
+    T = type(el)
+    names = dict(table=getattr(el, "table_name", ""), column=getattr(el, "column_name", ""), schema=getattr(el, "schema", None),
+                 newname=getattr(el, "newname", "") or "", newtable="")
+    opq = []
+    if T is base.RenameTable:
+        cn = ["RenameTable"]
+        names["newtable"] = el.new_table_name
+    elif T is base.AddColumn:
+        names["column"] = el.column.name
+        const = " ".join(ddlc.process(k) for k in el.column.constraints)
+        cn = ["AddColumn", bool(const)]
+        spec = ddlc.get_column_specification(el.column)
+        prefix = dialect.identifier_preparer.format_column(el.column) + " "
+        if not spec.startswith(prefix):
+            raise HarnessError("get_column_specification does not start with the formatted column name: %r" % spec)
+        opq = [spec[len(prefix):], const]
+    elif T is base.DropColumn:
+        cn = ["DropColumn"]
+        names["column"] = el.column.name
+    elif T is base.ColumnNullable:
+        cn, opq = ["ColumnNullable", bool(el.nullable)], [typ(el.existing_type)]
+    elif T is base.ColumnType:
+        cn, opq = ["ColumnType"], [typ(el.type_)]
+    elif T is base.ColumnName:
+        cn = ["ColumnName"]
+    elif T is base.ColumnDefault:
+        cn, opq = ["ColumnDefault", el.default is not None], [dflt(el.default) if el.default is not None else ""]
+    elif T is base.ColumnComment:
+        cn = ["ColumnComment", el.comment is not None]
+        opq = [lit(el.comment if el.comment is not None else "")] if dialect_name in ("postgresql", "oracle") else []
+    elif T is postgresql.PostgresqlColumnType:
+        cn, opq = ["PgColumnType", bool(el.using)], [typ(el.type_), el.using or ""]
+    elif T is mysql.MySQLAlterDefault:
+        cn, opq = ["MysqlAlterDefault", el.default is not None], [dflt(el.default) if el.default is not None else ""]
+    elif T in (mysql.MySQLModifyColumn, mysql.MySQLChangeColumn):
+        has_d = el.default is not False and el.default is not None
+        cn = ["MysqlModify" if T is mysql.MySQLModifyColumn else "MysqlChange", bool(el.nullable), bool(el.autoincrement),
+              has_d, bool(el.comment)]
+        opq = [typ(el.type_), dflt(el.default) if has_d else "", lit(el.comment) if el.comment else ""]
+    elif T is mssql._ExecDropConstraint:
+        cn, opq = ["MssqlDropConstraint"], [el.type_]
+        names.update(table=el.tname, column=str(el.colname))
+    elif T is mssql._ExecDropFKConstraint:
+        cn = ["MssqlDropFK"]
+        names.update(table=el.tname, column=str(el.colname))
+    else:
+        raise HarnessError("construct outside the modelled set handed to _exec: %r" % T)
+    return cn, names, opq
+
+
+def coq_req(r):
+    return "(mkReq %s %s %s %s %s %s %s %s %s %s %s %s)" % (
+        TRI[r["nullable"]], DREQ[r["default"]], cf.boolean(r["rename"]), cf.boolean(r["type"]), DREQ[r["comment"]],
+        TRI[r["autoinc"]], cf.boolean(r["ex_type"]), TRI[r["ex_nullable"]], DREQ[r["ex_default"]],
+        cf.boolean(r["ex_comment"]), cf.boolean(r["ex_autoinc"]), cf.boolean(r["using"]))
+
+
+def coq_op(o):
+    if o[0] == "alter":
+        return "(OpAlterColumn %s)" % coq_req(o[1])
+    if o[0] == "drop":
+        return "(OpDropColumn %s %s %s)" % tuple(cf.boolean(b) for b in o[1:])
+    return {"rename_table": "OpRenameTable", "add": "OpAddColumn"}[o[0]]
+
+
+def call_op(op, h):
+    """the real Operations call"""
+    import sqlalchemy as sa
+    t, nt, col, ncol, sch = h["table"], h["newtable"], h["column"], h["newcolumn"], h["schema"]
+    o = h["op"]
+    if o[0] == "rename_table":
+        op.rename_table(t, nt, schema=sch)
+    elif o[0] == "add":
+        op.add_column(t, sa.Column(col, TYPES[h["type"]](sa)), schema=sch)
+    elif o[0] == "drop":
+        op.drop_column(t, col, schema=sch, mssql_drop_default=o[1], mssql_drop_check=o[2], mssql_drop_foreign_key=o[3])
+    else:
+        r = o[1]
+        kw = dict(schema=sch)
+        if r["nullable"] is not None:
+            kw["nullable"] = r["nullable"]
+        if r["default"] != "keep":
+            kw["server_default"] = DEFAULTS[h["default"]] if r["default"] == "set" else None
+        if r["rename"]:
+            kw["new_column_name"] = ncol
+        if r["type"]:
+            kw["type_"] = TYPES[h["type"]](sa)
+        if r["comment"] != "keep":
+            kw["comment"] = COMMENTS[h["comment"]] if r["comment"] == "set" else None
+        if r["autoinc"] is not None:
+            kw["autoincrement"] = r["autoinc"]
+        if r["ex_type"]:
+            kw["existing_type"] = sa.String(7)
+        if r["ex_nullable"] is not None:
+            kw["existing_nullable"] = r["ex_nullable"]
+        if r["ex_default"] != "keep":
+            kw["existing_server_default"] = "'old d'" if r["ex_default"] == "set" else None
+        if r["ex_comment"]:
+            kw["existing_comment"] = "old c'm"
+        if r["ex_autoinc"]:
+            kw["existing_autoincrement"] = True
+        if r["using"]:
+            kw["postgresql_using"] = USINGS[h["using"]]
+        op.alter_column(t, col, **kw)
+
+
+def run_op(h):
+    from alembic.operations import Operations
+    c, buf, _ = _ctx(h["dialect"])
+    impl = c.impl
+    real_exec = impl._exec
+    steps, state = [], {"inner": False}
+
+    def spy(construct, *a, **kw):
+        cn, names, opq = describe(construct, h["dialect"])
+        rec = dict(construct=cn, opq=opq, **names)
+        steps.append(rec)
+        try:
+            rec["compiled"] = str(construct.compile(dialect=c.dialect))
+            buf.seek(0)
+            buf.truncate()
+            r = real_exec(construct, *a, **kw)
+            rec["offline"] = buf.getvalue()
+            return r
+        except HarnessError:
+            raise
+        except Exception as e:
+            rec.pop("compiled", None)
+            rec["err"] = errname(e)
+            state["inner"] = True
+            raise
+
+    raised = None
+    impl._exec = spy                      # harness-side spy on the instance; the class in /repo is untouched
+    try:
+        call_op(Operations(c), h)
+    except HarnessError:
+        raise
+    except Exception as e:
+        if not state["inner"]:
+            raised = errname(e)
+    finally:
+        del impl._exec
+    outs = []
+    for r in steps:
+        if "err" in r:
+            o = "(OutErr %s)" % r["err"]
+        else:
+            k = 0
+            while k < len(r["compiled"]) and k < len(r["offline"]) and r["compiled"][k] == r["offline"][k]:
+                k += 1
+            o = "(out_sql_pre %s %d%%nat %s)" % (enc(r["compiled"]), k, enc(r["offline"][k:]))
+        outs.append("(mkO %s %s %s %s %s %s %s)" % (coq_construct(r["construct"]), enc(r["table"]), enc(r["column"]),
+                                                  cf.opt(r["schema"], enc), enc(r["newname"]), enc(r["newtable"]), o))
+    cout = "ObsOp %s %s" % (cf.lst(outs), cf.opt(raised))
+    cin = "CaseOp %s %s (mkNames %s %s %s %s %s) %s" % (
+        COQ_DIALECT[h["dialect"]], coq_op(h["op"]), cf.opt(h["schema"], enc), enc(h["table"]), enc(h["newtable"]),
+        enc(h["column"]), enc(h["newcolumn"]), cf.lst(cf.lst(enc(x) for x in r["opq"]) for r in steps))
+    out = {"steps": [{k: v for k, v in r.items() if k != "opq"} for r in steps], "raised": raised}
+    emitted = sum(1 for r in steps if "err" not in r)
+    return dict(cin=cin, cout=cout, out=out, nontrivial=emitted > 0,
+                shape="op-%s-%s-%d%s" % (h["dialect"], h["op"][0], emitted, "-err" if raised or emitted < len(steps) else ""))
+
+
 def run_case(h):
-    return {"stmt": run_stmt, "quote": run_quote, "params": run_params}[h["kind"]](h)
+    return {"stmt": run_stmt, "quote": run_quote, "params": run_params, "op": run_op}[h["kind"]](h)
 
 
 # ----------------------------------------------------------------------------- generation
@@ -451,8 +647,72 @@ def gen(tier, seed, with_findings):
             yield dict(kind="quote", dialect=d, s=w + "x")
 
 
+def req(**kw):
+    r = dict(REQ_DEFAULT)
+    r.update(kw)
+    return r
+
+
+ALTER_SHAPES = [
+    req(default="set"), req(default="drop"), req(default="set", ex_default="set"), req(default="set", ex_default="drop"),
+    req(default="drop", ex_type=True, ex_nullable=False),
+    req(type=True), req(type=True, ex_type=True), req(type=True, ex_nullable=True), req(type=True, ex_nullable=False),
+    req(nullable=True, ex_type=True), req(nullable=False, ex_type=True), req(nullable=False), req(nullable=True, type=True),
+    req(rename=True, ex_type=True), req(rename=True), req(rename=True, ex_type=True, ex_nullable=False, ex_default="set",
+                                                          ex_comment=True, ex_autoinc=True),
+    req(comment="set", ex_type=True), req(comment="drop", ex_type=True), req(comment="set"),
+    req(type=True, using=True), req(using=True), req(autoinc=True, ex_type=True), req(autoinc=False, ex_type=True, ex_autoinc=True),
+    req(default="set", rename=True, ex_type=True), req(default="set", type=True), req(default="drop", nullable=True, ex_type=True),
+    req(nullable=False, default="set", rename=True, type=True, comment="set"),
+    req(nullable=True, default="drop", rename=True, type=True, comment="drop", using=True, ex_type=True),
+    req(),
+]
+
+
+def rand_req(rnd):
+    return req(nullable=rnd.choice([None, None, True, False]), default=rnd.choice(["keep", "keep", "drop", "set"]),
+               rename=rnd.random() < 0.3, type=rnd.random() < 0.4, comment=rnd.choice(["keep", "keep", "drop", "set"]),
+               autoinc=rnd.choice([None, None, None, True, False]), ex_type=rnd.random() < 0.6,
+               ex_nullable=rnd.choice([None, True, False]), ex_default=rnd.choice(["keep", "keep", "drop", "set"]),
+               ex_comment=rnd.random() < 0.3, ex_autoinc=rnd.random() < 0.2, using=rnd.random() < 0.15)
+
+
+def op_case(d, o, schema, t, c, rnd):
+    h = dict(kind="op", dialect=d, op=o, schema=schema, table=t, column=c, newtable=t + "_n", newcolumn=c + "_n")
+    h.update(variant(rnd))
+    return h
+
+
+def gen_ops(tier, seed, with_findings):
+    """operation-level stream: the real Operations API in as_sql mode"""
+    rnd = random.Random(seed * 104729 + 1414)
+    allow = {k: (FINDING_IDS[k] in with_findings) for k in FINDING_IDS}
+    for d in DIALECTS:
+        cl = name_classes(d)
+        if tier == "quick":
+            combos = [("plain", "plain"), ("reserved", "mixed"), ("space", "quotechar"), ("squote", "nonascii"),
+                      ("quotechar", "squote"), ("digit", "dollar")]
+        else:
+            combos = [(a, "plain") for a in cl] + [("plain", b) for b in cl] + [(a, a) for a in cl]
+        ops = [["alter", r] for r in ALTER_SHAPES]
+        ops += [["drop"] + [bool(m >> k & 1) for k in range(3)] for m in (range(8) if d == "mssql" else (0, 7))]
+        ops += [["rename_table"], ["add"]]
+        for o in ops:
+            for sv in SCHEMAS.values():
+                for a, b in sorted(set(combos)):
+                    yield op_case(d, o, sv, cl[a], cl[b], rnd)
+            for sv in EXTRA_SCHEMAS.values():
+                yield op_case(d, o, sv, cl["space"], cl["mixed"], rnd)
+        for _ in range(60 if tier == "quick" else 1500):
+            sch = rnd.choice([None, rand_name(rnd, allow) or "s", "My Schema", "db.sch"])
+            while sch and "" in sch.split("."):
+                sch = rand_name(rnd, allow)
+            o = rnd.choice([["alter", rand_req(rnd)]] * 6 + [["drop"] + [rnd.random() < 0.5 for _ in range(3)], ["rename_table"], ["add"]])
+            yield op_case(d, o, sch, rand_name(rnd, allow), rand_name(rnd, allow), rnd)
+
+
 def generate(tier, seed):
-    cases = list(gen(tier, seed, registered_findings()))
+    cases = list(gen(tier, seed, registered_findings())) + list(gen_ops(tier, seed, registered_findings()))
     # spread the (expensive to evaluate) params cases over the case shards
     params = [h for h in cases if h["kind"] == "params"]
     rest = [h for h in cases if h["kind"] != "params"]
@@ -469,11 +729,12 @@ def generate(tier, seed):
     _STATS["outside_theorem_class"] = sum(1 for h in out if not in_class(h))
     _STATS["by_dialect"] = dict(collections.Counter(h["dialect"] for h in out))
     _STATS["stmt_by_construct"] = dict(collections.Counter(h["construct"][0] for h in out if h["kind"] == "stmt"))
+    _STATS["op_by_kind"] = dict(collections.Counter(h["op"][0] for h in out if h["kind"] == "op"))
     return out
 
 
 def search(tier, seed):
-    return list(gen("quick", seed + 1, set(FINDING_IDS.values())))
+    return list(gen("quick", seed + 1, set(FINDING_IDS.values()))) + list(gen_ops("quick", seed + 1, set(FINDING_IDS.values())))
 
 
 def used_names(h):
@@ -488,15 +749,29 @@ def used_names(h):
     return names
 
 
+def op_names(h):
+    names = [h["table"]] + (h["schema"].split(".") if h["schema"] else [])
+    o = h["op"]
+    if o[0] == "rename_table":
+        names.append(h["newtable"])
+    else:
+        names.append(h["column"])
+    if o[0] == "alter" and o[1]["rename"]:
+        names.append(h["newcolumn"])
+    return names
+
+
 def classify(h, out):
     """known deviation classes: names on which SQLAlchemy's quote() does not round-trip, or that _exec rewrites"""
     if h.get("kind") == "quote":
         names = [h["s"]]
     elif h.get("kind") == "stmt":
         names = used_names(h)
+    elif h.get("kind") == "op":
+        names = op_names(h)
     else:
         return None
-    if h.get("kind") == "stmt" and any("\t" in n for n in names):
+    if h.get("kind") in ("stmt", "op") and any("\t" in n for n in names):
         return FINDING_IDS["tab"]
     if any(n.endswith("\n") for n in names):
         return FINDING_IDS["nl"]
@@ -511,7 +786,7 @@ _STATS = {}
 def in_class(h):
     if h["kind"] == "params":
         return True
-    names = [h["s"]] if h["kind"] == "quote" else used_names(h)
+    names = [h["s"]] if h["kind"] == "quote" else op_names(h) if h["kind"] == "op" else used_names(h)
     return all(n and "\t" not in n and not n.endswith("\n") and not (h["dialect"] in ("postgresql", "mysql") and "%" in n)
                for n in names)
 
